@@ -38,6 +38,8 @@ inductive UEv
   | validate (hs : Hs) (pipe : Pipe)
   | accepted (pipe : Pipe)       -- ghost: the user's Accept was applied to the inbound substream `pipe`
   | autoAccepted (pipe : Pipe)   -- ghost
+  | rejected (pipe : Pipe)       -- ghost: the user's Reject was applied to the inbound substream `pipe`; nothing is
+                                 -- reported for it, not even when the user's own open request dies with it
   | request                      -- ghost: the protocol took up an open request (or an accepted substream) it must answer
   | bug                          -- ghost: a `debug_assert!(false)` fired
   deriving DecidableEq, Repr
@@ -99,6 +101,7 @@ def applyOut (s : PeerSys) : Out → PeerSys
   | .bug => { s with log := s.log ++ [.bug] }
   | .accepted p => { s with log := s.log ++ [.accepted p] }
   | .autoAccepted p => { s with log := s.log ++ [.autoAccepted p] }
+  | .rejected p => { s with log := s.log ++ [.rejected p] }
 
 /-- Run a handler on the slot and apply its effects; a ghost `request` marker is logged when the
 protocol's debt to the user (`owed`) goes from 0 to 1, or when it answers at once. -/
@@ -195,7 +198,11 @@ def evOf (s : PeerSys) : Act → Option (PeerSys × Ev)
   | .validation p accept ok sid =>
     some ({ s with validations := s.validations.erase p },
       .validation accept (if ok && s.connected then some sid else none))
-  | .cmdOpen sd dk ok sid => some (s, .cmdOpen sd dk (if ok && s.connected then some sid else none))
+  | .cmdOpen sd dk ok sid =>
+    let pendHas := match s.slot with
+      | some (.closed (some x)) => s.pending.contains x
+      | _ => false
+    some (s, .cmdOpen sd dk pendHas (if ok && s.connected then some sid else none))
   | .cmdClose => some (s, .cmdClose)
   | _ => none
 
@@ -260,6 +267,7 @@ def freshAnswer (s : PeerSys) : Act → Bool
     | _ => true
   | _ => true
 
+/-- The reachable states of the restricted system: `Reach` minus the two known findings. -/
 inductive ReachP : PeerSys → Prop
   | init : ReachP {}
   | step {s : PeerSys} (a : Act) :
